@@ -195,6 +195,7 @@ def by_path_alignment(rec, rng):
     import tempfile
 
     d = tempfile.mkdtemp(prefix="vmon-c10-")
+    harness.add_siblings(d)  # a song folder: song.ini (name, artist, ...), album picture, stems, another chart
     try:
         for k in (9, 10, 11, 12, 13):
             for back in (1, 2):
